@@ -116,6 +116,9 @@ class Modules:
 			module_path: モジュールパス
 		"""
 		if module_path in self.__modules:
-			module = self.__modules[module_path]
+			module = self.__modules.pop(module_path)
+			# 対象のモジュールをインポートしているモジュールは、依存先のシンボルを失うため併せてアンロード
+			for dependent_path in [path for path, dependent in self.__modules.items() if module_path in [node.import_path.tokens for node in dependent.entrypoint.imports]]:
+				self.unload(dependent_path)
+
 			self.__loader.unload(module.module_path)
-			del self.__modules[module_path]
